@@ -11,10 +11,10 @@ from ..astutil import (
 from ..cfg import no_exc
 from ..report import Registry, sub, chain
 from ._helpers_rules_c import (
-    both, call_nodes, calls_ending, calm, cut_edges, fin_quiet, must_pass, outcome, test_edges,
+    both, call_nodes, calls_ending, calm, cut_edges, must_pass, outcome, test_edges,
 )
 from ._helpers_str_l import contradicted, flag_aliases, implying
-from ._helpers_rob_a import helper_callers, normal_form
+from ._helpers_rob_a import fin_quiet, helper_callers, normal_form
 from .c23 import commit_requires_active
 
 R = Registry(
